@@ -64,6 +64,8 @@ impl<Req, Res, E> Bulkhead<Req, Res, E> {
             forall|i: int| 0 <= i < final(tr).ev.len() ==> ((#[trigger] final(tr).ev[i]) matches Ev::TimedOut(d) ==> old(self).config.max_wait_duration == Some(d)),   // #timer_gets_max_wait_duration [C07]
             (result matches Err(BulkheadServiceError::Bulkhead(BulkheadError::Timeout))) <==> has_timed_out(final(tr).ev),   // #timeout_error_iff_timer_fired [C07]
             (result matches Err(BulkheadServiceError::Bulkhead(BulkheadError::BulkheadFull { .. }))) ==> final(tr).ev.last() is AcquireClosed,   // #full_only_when_semaphore_closed [C07]
+            old(self).config.max_wait_duration matches Some(d) ==> final(tr).timer == Some(d),   // #with_a_wait_limit_the_permit_is_always_awaited_under_a_timer_of_that_duration [C07]
+            old(self).config.max_wait_duration is None ==> final(tr).timer is None,   // #without_a_wait_limit_no_timer_is_armed [C07]
             final(tr).slept == 0,   // #nothing_but_the_semaphore_gates_admission [C07]
             final(tr).calls == 1 ==> final(tr).last_req == Some(request),   // #request_forwarded_unchanged [C20]
             result matches Ok(v) ==> final(tr).calls == 1 && final(tr).done == 1 && final(tr).last_done == Some(Ok::<Res, E>(v)),   // #response_returned_unchanged [C20]
